@@ -133,7 +133,7 @@ def gen_file(rnd):
     tops = [g.helper(len(leafs) + i, False, leafs) for i in range(rnd.randint(5, 8))]
     cases = []
     for ci in range(rnd.randint(20, 30)):
-        P = rnd.choice(["e", "j", "x", "evt", "y", "w", "e_1", "j_1"])
+        P = rnd.choice(["e", "j", "x", "evt", "y", "w", "e_1", "j_1", "HCUT1", "HNAME"])
         h = rnd.choice(tops)
         feats = set(h["feats"])
         g.k += 1
